@@ -188,12 +188,62 @@ Proof.
   destruct Hs as [r3 Hs]. exists r3. erewrite run_ops_step; [| subst pt pa; lia | exact Hs]. f_equal. subst pt pa. lia.
 Qed.
 
+(* set the <property> of <sound / sprite / cast> o to v *)
+Lemma tbl_assign_obj f : assocZ (u8 (b 93) * 256 + u8 (b (fcode f))) BI_OPCODES
+  = Some (2, "BiOpcode", match f with FSound => "AssignSoundPropertiesOpcode" | FSprite => "AssignSpritePropertiesOpcode"
+                                    | FCast => "AssignCastPropertiesOpcode" | FVideo => "AssignVideoPropertiesOpcode" end, "").
+Proof. destruct f; vm_compute; reflexivity. Qed.
+
+Lemma exec_set_obj en props f pid o v : wf_s en (SSetObj f pid o v) -> exec_s_spec en props (SSetObj f pid o v).
+Proof.
+  intros (Hpid & Ho & Hv) d off len a fuel r m [Hag Hpr] Hst Hc Hoff Hlen.
+  pose proof (ftable_small f) as Hsm.
+  cbn [compile_s ninstr_s] in *. rewrite !zlen_app in *. change (zlen [b 93; b (fcode f)]) with 2 in *.
+  apply code_at_app in Hc. destruct Hc as [Hco Hc]. apply code_at_app in Hc. destruct Hc as [Hcv Hc].
+  apply code_at_app in Hc. destruct Hc as [Hci Hcs].
+  pose proof (zlen_nonneg (compile_e o)). pose proof (zlen_nonneg (compile_e v)). pose proof (zlen_nonneg (compile_int (Z.of_nat pid))).
+  replace (ninstr o + (ninstr v + 2) + fuel)%nat with (ninstr o + (ninstr v + (1 + (1 + fuel))))%nat by lia.
+  destruct (exec_e en o Ho d off len a (ninstr v + (1 + (1 + fuel)))%nat r m Hag Hco ltac:(lia) ltac:(lia)) as [r1 E1]. rewrite E1.
+  set (m1 := after_e en a o m). set (pv := a + zlen (compile_e o)) in *.
+  pose proof (agrees_after_e en a o m Hag) as Hag1. fold m1 in Hag1.
+  destruct (exec_e en v Hv d off len pv (1 + (1 + fuel))%nat r1 m1 Hag1 Hcv ltac:(subst pv; lia) ltac:(subst pv; lia)) as [r2 E2]. rewrite E2.
+  set (m2 := after_e en pv v m1). set (pi := pv + zlen (compile_e v)) in *.
+  pose proof (agrees_after_e en pv v m1 Hag1) as Hag2. fold m2 in Hag2.
+  assert (Hwi : wf_e en (EInt (Z.of_nat pid))) by (cbn [wf_e]; lia).
+  destruct (exec_int en (Z.of_nat pid) Hwi d off len pi (1 + fuel)%nat r2 m2 Hag2 Hci ltac:(subst pi pv; lia) ltac:(subst pi pv; cbn [compile_e]; lia)) as [r3 E3].
+  cbn [ninstr compile_e] in E3. rewrite E3.
+  set (m3 := after_e en pi (EInt (Z.of_nat pid)) m2). set (ps := pi + zlen (compile_int (Z.of_nat pid))) in *.
+  assert (Hs : step d ps r3 m3 = Ok (ps + 2, r3, after_s en props a (SSetObj f pid o v) m)).
+  { eapply step_bi with (proc0 := "AssignSoundPropertiesOpcode") (attr0 := "")
+                        (oc := match f with FSound => OAssignSoundProps | FSprite => OAssignSpriteProps | FCast => OAssignCastProps | FVideo => OAssignVideoProps end);
+      [exact Hcs | reflexivity | apply tbl_assign_obj | destruct f; reflexivity |].
+    assert (E : assign_obj_prop m3 ps (fclass f) (ftable f) = Ok (after_s en props a (SSetObj f pid o v) m)).
+    { unfold assign_obj_prop, pop. subst m3. rewrite after_e_stack. cbn [bind reify_e]. unfold int_name. cbn [name_of].
+      rewrite int_of_str_small by lia. cbn [of_option bind]. unfold with_stack at 1. cbn [m_stack].
+      subst m2. rewrite after_e_stack. cbn [bind]. unfold with_stack at 1. cbn [m_stack].
+      subst m1. rewrite after_e_stack. cbn [bind]. rewrite nth_name_ok by exact Hpid. cbn [bind]. f_equal.
+      unfold after_s, stmt_assign, add_stmt, with_stack. cbn [reify_s globals_s].
+      apply mstate_eq; cbn [m_stack m_ctx m_fn f_globals f_name f_pos f_params f_locals f_stmts f_is_method set_stmts].
+      - rewrite Hst. reflexivity.
+      - destruct m as [? [? ? ? ? ? ? ?] ?]; reflexivity.
+      - rewrite !after_e_globals. cbn [globals_e add_globals fold_left]. rewrite add_globals_app. reflexivity.
+      - destruct m as [? [? ? ? ? ? ? ?] ?]; reflexivity.
+      - destruct m as [? [? ? ? ? ? ? ?] ?]; reflexivity.
+      - destruct m as [? [? ? ? ? ? ? ?] ?]; reflexivity.
+      - destruct m as [? [? ? ? ? ? ? ?] ?]; reflexivity.
+      - subst ps pi pv. destruct m as [? [? ? ? ? ? ? ?] ?]; reflexivity.
+      - destruct m as [? [? ? ? ? ? ? ?] ?]; reflexivity. }
+    destruct f; cbn [process fclass ftable] in *; exact E. }
+  exists r3. cbn [Nat.add]. erewrite run_ops_step; [| subst ps pi pv; lia | exact Hs]. f_equal. subst ps pi pv. lia.
+Qed.
+
 Theorem exec_s en props s : wf_s en s -> exec_s_spec en props s.
 Proof.
-  destruct s as [t e|f args|f args]; intros Hwf.
+  destruct s as [t e|f args|f args|f pid o v]; intros Hwf.
   - apply exec_set; exact Hwf.
   - apply (exec_call_stmt en props false f args); exact Hwf.
   - apply (exec_call_stmt en props true f args); exact Hwf.
+  - apply exec_set_obj; exact Hwf.
 Qed.
 
 (* ---- a sequence of statements ---- *)
